@@ -73,13 +73,14 @@ def overlap_obls(prefix):
     # get_overlapping_inputs: level 0 (closure with restart) and level 2
     for lv, n, tier in ((0, 1, "quick"), (0, 2, "quick"), (0, 3, "quick"), (2, 1, "quick"), (2, 2, "quick"), (2, 3, "quick")):
         out.append(Obl("%s.overlapping-inputs-L%d-N%d" % (prefix, lv, n), "vset/overlap.c", real=VER_REAL, include_real=INC, kit=KIT,
-                       defs={"VP_MODE": 3, "VP_LV": lv, "VP_N%d" % lv: n, "VP_VEC_CAP": 10}, unwind=9,
+                       defs=dict({"VP_MODE": 3, "VP_LV": lv, "VP_N%d" % lv: n, "VP_VEC_CAP": 10},
+                                 **({"VP_KEYMAX": 7, "VP_SEQMAX": 0} if lv == 0 else {})), unwind=9, flags=["--slice-formula"],
                        unwindset={"memcmp.0": 2, "vp_realloc_ptrs.0": 11, "harness.0": 11,
-                                  "ldb_version_get_overlapping_inputs.0": (n * (n + 1) + 2) if lv == 0 else n + 1},
-                       restrict_fp=GOI_FP, tier=tier, timeout=300,
+                                  "ldb_version_get_overlapping_inputs.0": ((2 * n + 1) * n + 1) if lv == 0 else n + 1},
+                       restrict_fp=CMP_FP, tier=tier, timeout=600,
                        functions=["ldb_version_get_overlapping_inputs"],
-                       desc="ldb_version_get_overlapping_inputs: level >= 1 exactly the files meeting the user-key range in order; level 0 the overlap closure",
-                       bounds="%d files in level %d, begin/end independently NULL, 1-byte user keys" % (n, lv)))
+                       desc="ldb_version_get_overlapping_inputs: level >= 1 exactly the files meeting the user-key range in order; level 0 == the transitive closure of the range under overlap (brute-force fixpoint, both sides)",
+                       bounds="%d files in level %d, begin/end independently NULL, 1-byte user keys %s" % (n, lv, "0..7 (8 values realise every order of 6 bounds + 2 range ends; tags are not read)" if lv == 0 else "0..15")))
     # pick_level_for_memtable_output
     for t, tier in (((1, 1, 1, 1), "quick"), ((2, 1, 0, 1), "quick"), ((0, 2, 1, 0), "quick"), ((1, 0, 2, 1), "quick"),
                     ((0, 1, 1, 2), "quick"), ((0, 0, 0, 0), "quick"), ((2, 2, 2, 2), "thorough"), ((1, 2, 2, 2), "thorough")):
@@ -144,7 +145,7 @@ def boundary_obls(prefix):
                        real=VER_REAL, include_real=INC, kit=KIT,
                        defs=dict(_levels(t[:7]), VP_MODE=mode, VP_CL=cl, VP_NCL1=n1, VP_NCL2=n2, VP_VEC_CAP=8), unwind=11,
                        unwindset={"memcmp.0": 2, "memcpy.0": 10, "vp_realloc_ptrs.0": 9,
-                                  "ldb_version_get_overlapping_inputs.0": (t[0] * (t[0] + 1) + 2) if cl == 0 else mx + 1,
+                                  "ldb_version_get_overlapping_inputs.0": max((2 * t[0] + 1) * t[0] + 1, mx + 1) if cl == 0 else mx + 1,
                                   "ldb_add_boundary_inputs.0": mx + 1, "find_smallest_boundary_file.0": mx + 1,
                                   "find_largest_key.0": mx + 2, "total_file_size.0": mx + 2, "ldb_versions_get_range.0": 2 * mx + 2,
                                   "ldb_versions_get_range2.0": mx + 2, "ldb_versions_get_range2.1": mx + 2},
